@@ -415,7 +415,8 @@ pub fn run(tier: Tier, seed: u64) -> i32 {
 
     // auxiliary, NOT deciding (sampling): free-running barrier-released threads
     let aux = free_running(&run, &w, tier);
-    run.set("auxiliary_free_running_sampling", json!({"executions": aux, "note": "sampling; can only add a violation, never certify"}));
+    let aux_first = free_running_first_use(&run, &w, tier);
+    run.set("auxiliary_free_running_sampling", json!({"executions": aux, "first_executions_of_fresh_large_filters": aux_first, "note": "sampling; can only add a violation, never certify"}));
 
     run.set("states", json!(total.points_total));
     run.set("transitions", json!(total.points_total));
@@ -534,6 +535,97 @@ fn free_running(run: &Run, w: &Arc<World>, tier: Tier) -> u64 {
                     }
                 }
                 n += (20 * FILTERS.len()) as u64;
+            }
+        }
+    }
+    n
+}
+
+/// Filters whose compiled form is large (big literal sets, a wide alternation): if any part of the
+/// work is put off to the first execution, that first execution takes long enough to be raced.
+fn heavy_filters() -> Vec<String> {
+    let mut ints: Vec<i64> = (0..4000i64).map(|k| (k * 7919 + 13) % 100_003 - 50_000).collect();
+    ints.push(1);
+    ints.push(2);
+    let int_set = ints.iter().map(|i| i.to_string()).collect::<Vec<_>>().join(" ");
+    let mut ips: Vec<String> = (0..2000u32).map(|k| format!("10.{}.{}.{}", (k * 31) % 256, (k * 17) % 256, k % 256)).collect();
+    ips.push("::1".into());
+    ips.push("1.2.3.4".into());
+    let ip_set = ips.join(" ");
+    let mut strs: Vec<String> = (0..2000u32).map(|k| format!("\"w{}\"", k * 104_729 % 1_000_003)).collect();
+    strs.push("\"ab\"".into());
+    strs.push("\"ba\"".into());
+    let str_set = strs.join(" ");
+    let alternation = (0..400u32).map(|k| format!("x{k}y")).collect::<Vec<_>>().join("|");
+    vec![
+        format!("i in {{{int_set}}}"),
+        format!("ip in {{{ip_set}}}"),
+        format!("s in {{{str_set}}}"),
+        format!("s matches \"^({alternation}|a.*b)$\""),
+        format!("any(xs[*] in {{{str_set}}}) or i in {{{int_set}}}"),
+    ]
+}
+
+/// First executions of freshly compiled filters, raced by free-running threads released together
+/// (sampling: auxiliary to the schedule exploration, which cannot preempt inside code that has no
+/// scheduling point).
+fn free_running_first_use(run: &Run, w: &Arc<World>, tier: Tier) -> u64 {
+    let texts = heavy_filters();
+    // sequential baseline from a compilation of its own
+    let base: Vec<Vec<bool>> = texts
+        .iter()
+        .map(|t| {
+            let f = w.scheme.parse(t).expect("heavy filter parses").compile();
+            w.ctxs.iter().map(|c| f.execute(c).expect("same scheme")).collect()
+        })
+        .collect();
+    let base = Arc::new(base);
+    let mut n = 0u64;
+    for threads in [2usize, 4, 16] {
+        for _round in 0..tier.pick(12, 60) {
+            let fresh: Arc<Vec<Filter>> = Arc::new(texts.iter().map(|t| w.scheme.parse(t).expect("parses").compile()).collect());
+            let barrier = Arc::new(std::sync::Barrier::new(threads));
+            let mut hs = Vec::new();
+            for t in 0..threads {
+                let (w2, b, fr, bs) = (w.clone(), barrier.clone(), fresh.clone(), base.clone());
+                hs.push(std::thread::spawn(move || {
+                    b.wait();
+                    let mut bad = Vec::new();
+                    for k in 0..fr.len() {
+                        let j = t % w2.ctxs.len();
+                        let got = guarded(|| fr[k].execute(&w2.ctxs[j]).expect("same scheme"));
+                        if got != Ok(bs[k][j]) {
+                            bad.push(format!("large filter {k} on context {j}: {got:?}, baseline {}", bs[k][j]));
+                        }
+                    }
+                    bad
+                }));
+            }
+            for h in hs {
+                if let Ok(bad) = h.join() {
+                    for b in bad {
+                        run.violation(
+                            format!("{ID}:free-running-first-use:{b}"),
+                            format!("first execution of a freshly compiled filter raced by {threads} free-running threads: {b}"),
+                            json!({"kind": "c18-free-running", "threads": threads}),
+                        );
+                    }
+                }
+                n += texts.len() as u64;
+            }
+            // and once more sequentially: whatever the race left behind stays observable
+            for k in 0..fresh.len() {
+                for j in 0..w.ctxs.len() {
+                    let got = guarded(|| fresh[k].execute(&w.ctxs[j]).expect("same scheme"));
+                    if got != Ok(base[k][j]) {
+                        run.violation(
+                            format!("{ID}:free-running-first-use:afterwards: large filter {k} on context {j}"),
+                            format!("after its first executions were raced by {threads} threads, large filter {k} on context {j} gives {got:?}, baseline {}", base[k][j]),
+                            json!({"kind": "c18-free-running", "threads": threads}),
+                        );
+                    }
+                    n += 1;
+                }
             }
         }
     }
